@@ -699,7 +699,7 @@ class C20(fw.Property):
                   "between model and abstract directory; the refinement is about heap, indexes, timers, locations, atomicity and what lookups show. Not modelled: "
                   "SimpleRegistration (.well-known/rd, needs an outgoing request), the proxy extension (proxy_domain is None: every proxy=... is 4.00), observation "
                   "notifications of the lookup resources, key case-insensitivity of Link.__contains__, Unicode digits/whitespace in int(), urljoin outside the grammar "
-                  "stated in Model/C20Str.v, valueless anchor attributes. Six defects found by this check were fixed in /repo (f8ef49b, 5a5d1e7, 212d645); one open finding (a PUT that replaces only the links does not notify the observers of the lookup resources).")
+                  "stated in Model/C20Str.v, valueless anchor attributes. Seven defects found by this check were fixed in /repo (f8ef49b, 5a5d1e7, 212d645, 3b8673f); no open finding.")
     rule = ("stream helpers (1 in 8) = the model's urljoin / int() / str.split() / query splitting against CPython's on scheme x authority x path x reference tables and "
             "random digit strings. stream history = 3..26 steps: register (28 %: names a/b/node1/'' x sectors -/x/y, 70 % clean parameters, else 1-2 injected faults among invalid/valueless/"
             "duplicate lt, valueless/duplicate base, ep missing/duplicate/valueless, d duplicate/valueless, forbidden keys rt/href/page/count/anchor/proxy; content-format "
